@@ -387,4 +387,144 @@ theorem foldl_addPiece_ids (wire : List Piece) : ∀ (acc : List Chunk),
 theorem glue_has_piece (wire : List Piece) (p : Piece) (hp : p ∈ wire) : ∃ c ∈ glue wire, c.id = p.id :=
   (foldl_addPiece_ids wire []).2 p hp
 
+theorem scanFrom_snoc (lens : Nat → Nat) (ps : List Piece) : ∀ (cs : List Chunk) (p : Piece),
+    scanFrom lens cs (ps ++ [p]) =
+      match scanFrom lens cs ps with
+      | some cs' => if framed lens (addPiece cs' p) then some (addPiece cs' p) else none
+      | none => none := by
+  induction ps with
+  | nil => intro cs p; simp [scanFrom]
+  | cons q ps ih =>
+    intro cs p
+    simp only [List.cons_append, scanFrom]
+    split
+    · exact ih _ p
+    · rfl
+
+/-- what an accepting scan returns is `glue`, and it is framed (unless the wire is empty) -/
+theorem scanFrom_some (lens : Nat → Nat) (ps : List Piece) : ∀ (cs cs' : List Chunk),
+    scanFrom lens cs ps = some cs' → cs' = ps.foldl addPiece cs ∧ (ps ≠ [] → framed lens cs' = true) := by
+  induction ps with
+  | nil => intro cs cs' h; simp [scanFrom] at h; subst h; simp
+  | cons q ps ih =>
+    intro cs cs' h
+    simp only [scanFrom] at h
+    split at h
+    · rename_i hf
+      obtain ⟨h1, h2⟩ := ih _ _ h
+      refine ⟨by simpa using h1, fun _ => ?_⟩
+      cases ps with
+      | nil => simp [scanFrom] at h; subst h; exact hf
+      | cons r rs => exact h2 (by simp)
+    · simp at h
+
+theorem step_wire (cfg : Cfg) (s s' : St) (a : Act) (hs : step cfg s a = some s') :
+    s'.wire = s.wire ∨ ∃ p, s'.wire = s.wire ++ [p] := by
+  cases a <;> simp only [step] at hs <;> (try split at hs) <;> (try split at hs) <;>
+    (try (simp at hs)) <;> (try (injection hs with hs; subst hs; simp))
+  all_goals (first | (subst hs; simp) | skip)
+
+
+theorem framed_of_inv (cfg : Cfg) (s : St) (inv : Inv cfg s) : framed cfg.lens (glue s.wire) = true := by
+  simp only [framed, Bool.and_eq_true, List.all_eq_true, decide_eq_true_eq, beq_iff_eq]
+  refine ⟨fun c hc => ?_, inv.acc.nodup⟩
+  obtain ⟨h0, hpos, hn⟩ := inv.acc.acct c hc
+  exact ⟨⟨h0, hpos⟩, by rw [hn]; exact inv.acc.bound c.id⟩
+
+/-- the online check accepts the wire of every state reachable from a state whose wire it accepts -/
+theorem scan_run (cfg : Cfg) (hser : cfg.serialised = true) : ∀ (as : List Act) (s s' : St), Inv cfg s →
+    scan cfg.lens s.wire = some (glue s.wire) → run cfg s as = some s' → scan cfg.lens s'.wire = some (glue s'.wire)
+  | [], s, s', _, hsc, hr => by simp [run] at hr; subst hr; exact hsc
+  | a :: as, s, s', inv, hsc, hr => by
+    simp only [run] at hr
+    split at hr
+    · rename_i s1 hs1
+      have inv1 := inv_step cfg hser s s1 a inv hs1
+      refine scan_run cfg hser as s1 s' inv1 ?_ hr
+      rcases step_wire cfg s s1 a hs1 with hw | ⟨p, hw⟩
+      · rw [hw]; exact hsc
+      · have hf := framed_of_inv cfg s1 inv1
+        rw [hw] at hf ⊢
+        unfold scan at hsc ⊢
+        rw [scanFrom_snoc, hsc]
+        simp only [← glue_snoc]
+        simp [hf]
+    · simp at hr
+
+/-- a rejection pinpoints a prefix of the byte stream that is not framed -/
+theorem scanFrom_none (lens : Nat → Nat) (ps : List Piece) : ∀ (cs : List Chunk),
+    scanFrom lens cs ps = none → ∃ pre, pre <+: ps ∧ framed lens (pre.foldl addPiece cs) = false := by
+  induction ps with
+  | nil => intro cs h; simp [scanFrom] at h
+  | cons q ps ih =>
+    intro cs h
+    simp only [scanFrom] at h
+    split at h
+    · obtain ⟨pre, hpre, hf⟩ := ih _ h
+      exact ⟨q :: pre, by simpa using hpre, by simpa using hf⟩
+    · rename_i hf
+      exact ⟨[q], by simp, by simpa using hf⟩
+
+/-- `done` is final: nothing changes the control state of a writer that has returned, and no byte of its frame
+    is added to the wire afterwards -/
+theorem done_step (cfg : Cfg) (s s' : St) (a : Act) (inv : Inv cfg s) (w n : Nat) (ok : Bool)
+    (hd : s.pc w = .done n ok) (hs : step cfg s a = some s') :
+    s'.pc w = .done n ok ∧ s'.wire.filter (·.id = w) = s.wire.filter (·.id = w) := by
+  have htodo : w ∉ s.todo := fun hm => by have := inv.todoQ w hm; rw [hd] at this; cases this
+  cases a with
+  | piece x k =>
+    simp only [step] at hs
+    split at hs
+    · rename_i off hx
+      split at hs
+      · injection hs with hs; subst hs
+        have hxw : w ≠ x := by intro e; rw [e, hx] at hd; cases hd
+        refine ⟨by simp only [setPc_other _ _ _ _ hxw, hd], ?_⟩
+        simp [List.filter_append, Ne.symm hxw]
+      · simp at hs
+    · simp at hs
+  | endWrite x ok' =>
+    simp only [step] at hs
+    split at hs
+    · rename_i off hx
+      split at hs
+      · injection hs with hs; subst hs
+        have hxw : w ≠ x := by intro e; rw [e, hx] at hd; cases hd
+        refine ⟨?_, rfl⟩
+        simp only [setPc_other _ _ _ _ hxw]
+        split
+        · rw [setMany_not_mem _ _ _ _ htodo, hd]
+        · exact hd
+      · simp at hs
+    · simp at hs
+  | submit x | cancel x | enqueue x | enter x | quit x | ret x | close x | closeFinish x =>
+    simp only [step] at hs
+    split at hs <;> first
+      | (injection hs with hs; subst hs
+         refine ⟨?_, rfl⟩
+         have hxw : w ≠ x := by intro e; subst e; simp_all
+         simp only [setPc_other _ _ _ _ hxw, hd])
+      | (simp at hs)
+  | tick =>
+    simp only [step] at hs
+    split at hs
+    · injection hs with hs; subst hs; exact ⟨hd, rfl⟩
+    · simp at hs
+  | shutdown =>
+    simp only [step] at hs
+    injection hs with hs; subst hs; exact ⟨hd, rfl⟩
+
+theorem done_run (cfg : Cfg) (hser : cfg.serialised = true) (w n : Nat) (ok : Bool) : ∀ (as : List Act) (s s' : St),
+    Inv cfg s → s.pc w = .done n ok → run cfg s as = some s' →
+    s'.pc w = .done n ok ∧ s'.wire.filter (·.id = w) = s.wire.filter (·.id = w)
+  | [], s, s', _, hd, hr => by simp [run] at hr; subst hr; exact ⟨hd, rfl⟩
+  | a :: as, s, s', inv, hd, hr => by
+    simp only [run] at hr
+    split at hr
+    · rename_i s1 hs1
+      have h1 := done_step cfg s s1 a inv w n ok hd hs1
+      have h2 := done_run cfg hser w n ok as s1 s' (inv_step cfg hser s s1 a inv hs1) h1.1 hr
+      exact ⟨h2.1, h2.2.trans h1.2⟩
+    · simp at hr
+
 end Writer
